@@ -21,6 +21,7 @@ type CheckpointList struct {
 	checkpoints               []*Checkpoint
 	checkpointsPendingRemoval []*Checkpoint // Track removed checkpoints so they can be destroyed on Save
 	saveMu                    sync.Mutex    // Serializes Save
+	mu                        sync.Mutex    // Protects the two lists: Add, RetainOnly and Save run on different goroutines
 }
 
 func NewCheckpointList() *CheckpointList {
@@ -49,7 +50,9 @@ func (cl *CheckpointList) Add(ckptID uint64, ll *sst.LevelList, w *wal.Writer, l
 			cp.tableURIset[t.URI()] = struct{}{}
 		}
 	}
+	cl.mu.Lock()
 	cl.checkpoints = append(cl.checkpoints, cp)
+	cl.mu.Unlock()
 }
 
 func (cl *CheckpointList) Save(fs storage.FileSystem) (string, error) {
@@ -58,11 +61,15 @@ func (cl *CheckpointList) Save(fs storage.FileSystem) (string, error) {
 	cl.saveMu.Lock()
 	defer cl.saveMu.Unlock()
 
-	// Collect a list of checkpoint docs for serialization
+	// Collect a list of checkpoint docs for serialization, and the removals this
+	// save carries out: one consistent view of the two lists.
+	cl.mu.Lock()
 	checkpointDocs := make([]checkpointDocument, len(cl.checkpoints))
 	for i, ckpt := range cl.checkpoints {
 		checkpointDocs[i] = ckpt.Document()
 	}
+	pendingRemoval := cl.checkpointsPendingRemoval
+	cl.mu.Unlock()
 	doc := checkpointListDocument{
 		Checkpoints: checkpointDocs,
 	}
@@ -83,14 +90,16 @@ func (cl *CheckpointList) Save(fs storage.FileSystem) (string, error) {
 	}
 
 	// Call cp.Destroy() to delete WAL files
-	for _, cp := range cl.checkpointsPendingRemoval {
+	for _, cp := range pendingRemoval {
 		if err := cp.Destroy(); err != nil {
 			return "", err
 		}
 	}
 
-	// Clear the list of pending checkpoints
-	cl.checkpointsPendingRemoval = nil
+	// Clear the destroyed checkpoints; removals decided meanwhile stay pending
+	cl.mu.Lock()
+	cl.checkpointsPendingRemoval = cl.checkpointsPendingRemoval[len(pendingRemoval):]
+	cl.mu.Unlock()
 
 	return file.URI(), nil
 }
@@ -106,6 +115,9 @@ func (cl *CheckpointList) Latest() *Checkpoint {
 // RetainOnly keeps only the checkpoints with the specified IDs in the list. Other checkpoints
 // aren't really removed until the next successful Save.
 func (cl *CheckpointList) RetainOnly(ids []uint64) {
+	cl.mu.Lock()
+	defer cl.mu.Unlock()
+
 	idsSet := ds.SetOf(ids...)
 	// A retention update only speaks about the checkpoints that existed when it
 	// was decided: checkpoints newer than every listed id are kept.
@@ -133,6 +145,9 @@ func (cl *CheckpointList) RetainOnly(ids []uint64) {
 }
 
 func (cl *CheckpointList) IncludesTable(uri string) bool {
+	cl.mu.Lock()
+	defer cl.mu.Unlock()
+
 	for _, cp := range cl.checkpoints {
 		if cp.IncludesTable(uri) {
 			return true
